@@ -6,6 +6,49 @@ use nundb::bo::ClusterRole;
 use serde_json::{json, Value as J};
 use std::io::{BufRead, BufWriter, Write};
 
+/// Start-up attempt in a child process with an address-space limit and a time limit: on a
+/// damaged file the loader may try to allocate a garbage length (abort) or spin.
+fn probe_load_child(dir: &str, user: &str, pwd: &str) -> std::io::Result<std::process::ExitStatus> {
+    let exe = std::env::current_exe().unwrap();
+    std::process::Command::new("sh")
+        .arg("-c")
+        .arg("ulimit -v 6000000; exec timeout 20 \"$0\" probe-load \"$1\" \"$2\" \"$3\"")
+        .arg(exe)
+        .arg(dir)
+        .arg(user)
+        .arg(pwd)
+        .stdout(std::process::Stdio::null())
+        .stderr(std::process::Stdio::null())
+        .status()
+}
+
+fn copy_dir(src: &str, dst: &str) {
+    std::fs::create_dir_all(dst).unwrap();
+    if let Ok(rd) = std::fs::read_dir(src) {
+        for e in rd.flatten() {
+            let p = e.path();
+            let name = e.file_name().into_string().unwrap();
+            if p.is_dir() {
+                copy_dir(p.to_str().unwrap(), &format!("{}/{}", dst, name));
+            } else {
+                let _ = std::fs::copy(&p, format!("{}/{}", dst, name));
+            }
+        }
+    }
+}
+
+fn dir_sizes(dir: &str) -> J {
+    let mut m = serde_json::Map::new();
+    if let Ok(rd) = std::fs::read_dir(dir) {
+        for e in rd.flatten() {
+            if e.path().is_file() {
+                m.insert(e.file_name().into_string().unwrap(), json!(e.metadata().map(|x| x.len()).unwrap_or(0)));
+            }
+        }
+    }
+    J::Object(m)
+}
+
 fn role_of(s: &str) -> ClusterRole {
     match s {
         "secondary" => ClusterRole::Secoundary,
@@ -63,6 +106,45 @@ pub fn run_case(case: &J, workdir: &str, out: &mut dyn Write, n: usize) {
                 d["v"].as_str().unwrap_or(""),
                 d["ver"].as_i64().unwrap_or(-1) as i32,
             );
+        } else if st.get("tick").is_some() && st.get("crash").is_some() {
+            // crash imaging: after every file-system call of the snapshot the data directory is
+            // copied (what a kill -9 at that instant leaves: buffered bytes are not there yet)
+            ev["ev"] = json!("crashtick");
+            ev["target"] = node.dump();
+            let img_root = format!("{}-img", dir);
+            let _ = std::fs::remove_dir_all(&img_root);
+            std::fs::create_dir_all(&img_root).unwrap();
+            let sites: std::sync::Arc<std::sync::Mutex<Vec<String>>> = std::sync::Arc::new(std::sync::Mutex::new(vec![]));
+            {
+                let (sites2, src, root) = (sites.clone(), dir.clone(), img_root.clone());
+                nundb::verif::set_crash_hook(Some(std::sync::Arc::new(move |site: &str| {
+                    let mut s = sites2.lock().unwrap();
+                    let n = s.len();
+                    copy_dir(&src, &format!("{}/{}", root, n));
+                    s.push(site.to_string());
+                })));
+            }
+            ev["r"] = node.tick();
+            nundb::verif::set_crash_hook(None);
+            let sites = sites.lock().unwrap().clone();
+            let mut images = vec![];
+            let (user, pwd) = (node.user.clone(), node.pwd.clone());
+            for (n, site) in sites.iter().enumerate() {
+                let idir = format!("{}/{}", img_root, n);
+                let probe = probe_load_child(&idir, &user, &pwd);
+                let ok = matches!(probe, Ok(s) if s.success());
+                let mut img = json!({"n": n, "site": site, "load": if ok { "ok" } else { "fail" }, "files": dir_sizes(&idir)});
+                if ok {
+                    match Node::start("img", &idir, &user, &pwd, ClusterRole::Primary) {
+                        Ok(nd) => img["dump"] = nd.dump(),
+                        Err(_) => img["load"] = json!("fail"),
+                    }
+                }
+                images.push(img);
+            }
+            nundb::verif::set_data_dir(Some(dir.clone()));
+            let _ = std::fs::remove_dir_all(&img_root);
+            ev["images"] = json!(images);
         } else if st.get("tick").is_some() {
             ev["ev"] = json!("tick");
             ev["r"] = node.tick();
@@ -80,11 +162,7 @@ pub fn run_case(case: &J, workdir: &str, out: &mut dyn Write, n: usize) {
             drop(node);
             // the loader may abort the whole process on a damaged file (allocation of a garbage
             // length): try the start-up in a child process first
-            let probe = std::process::Command::new(std::env::current_exe().unwrap())
-                .args(&["probe-load", &dir, &user, &pwd])
-                .stdout(std::process::Stdio::null())
-                .stderr(std::process::Stdio::null())
-                .status();
+            let probe = probe_load_child(&dir, &user, &pwd);
             let probe_ok = matches!(probe, Ok(s) if s.success());
             let started = if probe_ok {
                 Node::start("node1", &dir, &user, &pwd, role_now)
